@@ -6,6 +6,7 @@ import (
 	"fmt"
 	"os"
 	"path/filepath"
+	"slices"
 	"sync"
 	"time"
 
@@ -79,8 +80,8 @@ func (t *vtimer) Extend(d time.Duration) {
 	t.deadline = t.deadline.Add(d)
 	t.mu.Unlock()
 }
-func (t *vtimer) Height() uint32 { t.mu.Lock(); defer t.mu.Unlock(); return t.h }
-func (t *vtimer) View() byte     { t.mu.Lock(); defer t.mu.Unlock(); return t.v }
+func (t *vtimer) Height() uint32      { t.mu.Lock(); defer t.mu.Unlock(); return t.h }
+func (t *vtimer) View() byte          { t.mu.Lock(); defer t.mu.Unlock(); return t.v }
 func (t *vtimer) C() <-chan time.Time { return t.ch }
 
 // fire delivers the timeout if the timer is armed; returns false otherwise.
@@ -162,17 +163,17 @@ type Node struct {
 
 type Cluster struct {
 	Variants int // transactions handed to a node as another valid copy (different witness)
-	N, F   int
-	Net    *chainkit.Net
-	Nodes  []*Node
-	clk    *clock
-	mu     sync.Mutex
-	cond   *sync.Cond
-	Msgs   []*Msg
-	TxReqs [][2]any // (node, hashes) requests for transactions
-	bySvc  map[consensus.Service]*Node
-	dir    string
-	Log    func(ev map[string]any)
+	N, F     int
+	Net      *chainkit.Net
+	Nodes    []*Node
+	clk      *clock
+	mu       sync.Mutex
+	cond     *sync.Cond
+	Msgs     []*Msg
+	TxReqs   [][2]any // (node, hashes) requests for transactions
+	bySvc    map[consensus.Service]*Node
+	dir      string
+	Log      func(ev map[string]any)
 }
 
 var hookMu sync.Mutex
@@ -291,7 +292,8 @@ func (c *Cluster) onBroadcast(from int, p *npayload.Extensible) {
 
 func (c *Cluster) onRequestTx(node int, hs []util.Uint256) {
 	c.mu.Lock()
-	c.TxReqs = append(c.TxReqs, [2]any{node, hs})
+	// (a copy: the service hands over the slice it keeps editing while the requested transactions arrive)
+	c.TxReqs = append(c.TxReqs, [2]any{node, slices.Clone(hs)})
 	c.mu.Unlock()
 }
 
@@ -479,7 +481,8 @@ func (c *Cluster) ServeTxRequests() int {
 					c.Nodes[node].Svc.OnTransaction(&cp)
 					c.Settle()
 					cp2 := *tx
-					_ = c.Nodes[node].BC.PoolTx(&cp2)
+					perr := c.Nodes[node].BC.PoolTx(&cp2)
+					c.Log(map[string]any{"event": "txserved", "node": node, "tx": h.StringLE(), "pooled": perr == nil, "err": fmt.Sprint(perr)})
 					served++
 					break
 				}
